@@ -167,32 +167,63 @@ def part_a():
             out.append(r)
     if nsref_rows == 0:
         raise Untranslatable("visit_NSRef emits no literal fragment any more")
-    # the Namespace guard in visit_Assign
+    # the Namespace guard: emitted by `_check_nsrefs(target, frame)`, which visit_Assign AND visit_AssignBlock call on
+    # `node.target` before they write the target (a block set stores into the same `ref[attr]`, /repo cf81214)
     guard = False
-    for fn in ast.walk(tree):
-        if isinstance(fn, ast.FunctionDef) and fn.name == "visit_Assign":
-            lits = [fragment_of(c.args[0]) for c in ast.walk(fn) if isinstance(c, ast.Call) and isinstance(c.func, ast.Attribute)
-                    and c.func.attr in ("write", "writeline") and c.args]
-            texts = [x[0] for x in lits if x]
-            guard = any(t.replace(" ", "") == "ifnotisinstance(H,Namespace):" for t in texts) and \
-                any(t.startswith("raise TemplateRuntimeError") for t in texts)
+    helper = next((f for f in ast.walk(tree) if isinstance(f, ast.FunctionDef) and f.name == "_check_nsrefs"), None)
+    if helper is not None:
+        lits = [fragment_of(c.args[0]) for c in ast.walk(helper) if isinstance(c, ast.Call) and isinstance(c.func, ast.Attribute)
+                and c.func.attr in ("write", "writeline") and c.args]
+        texts = [x[0] for x in lits if x]
+        emits = any(t.replace(" ", "") == "ifnotisinstance(H,Namespace):" for t in texts) and \
+            any(t.startswith("raise TemplateRuntimeError") for t in texts)
+        guard = emits and all(calls_guard_before_target(tree, v) for v in ("visit_Assign", "visit_AssignBlock"))
     dyn = sorted(set(dyn))
     return out, dyn, guard, nsref_guard_covers_every(tree)
 
 
-def nsref_guard_covers_every(tree) -> bool:
-    """visit_Assign emits the isinstance guard inside `for <t> in node.find_all(nodes.NSRef)`, for `<t>.name`, and the only way
-    to skip an iteration is `if <t>.name in <seen>: continue` where <seen> only ever receives `<t>.name` (one guard per
-    distinct ref name — never fewer)"""
-    fn = next((f for f in ast.walk(tree) if isinstance(f, ast.FunctionDef) and f.name == "visit_Assign"), None)
+def calls_guard_before_target(tree, visitor) -> bool:
+    """`self._check_nsrefs(node.target, frame)` is a top-level statement of the visitor and precedes `self.visit(node.target, …)`"""
+    fn = next((f for f in ast.walk(tree) if isinstance(f, ast.FunctionDef) and f.name == visitor), None)
     if fn is None:
         return False
+    guard_at = target_at = None
+    for i, st in enumerate(fn.body):
+        if isinstance(st, ast.Expr) and isinstance(st.value, ast.Call):
+            c = st.value
+            if ast.unparse(c.func) == "self._check_nsrefs" and [ast.unparse(x) for x in c.args] == ["node.target", "frame"] \
+                    and guard_at is None:
+                guard_at = i
+            if ast.unparse(c.func) == "self.visit" and c.args and ast.unparse(c.args[0]) == "node.target" and target_at is None:
+                target_at = i
+    n_target_visits = sum(1 for c in ast.walk(fn) if isinstance(c, ast.Call) and ast.unparse(c.func) == "self.visit"
+                          and c.args and ast.unparse(c.args[0]) == "node.target")
+    return guard_at is not None and target_at is not None and guard_at < target_at and n_target_visits == 1
+
+
+def nsref_guard_covers_every(tree) -> bool:
+    """_check_nsrefs emits the isinstance guard inside `for <t> in <refs>` where <refs> is `[target]` when the target is an
+    NSRef itself and `target.find_all(nodes.NSRef)` otherwise, for `<t>.name`, and the only way to skip an iteration is
+    `if <t>.name in <seen>: continue` where <seen> only ever receives `<t>.name` (one guard per distinct ref name — never
+    fewer)"""
+    fn = next((f for f in ast.walk(tree) if isinstance(f, ast.FunctionDef) and f.name == "_check_nsrefs"), None)
+    if fn is None or [a.arg for a in fn.args.args] != ["self", "target", "frame"]:
+        return False
+    # what the loop iterates: every binding of the iterated name
     for loop in ast.walk(fn):
-        if not (isinstance(loop, ast.For) and isinstance(loop.target, ast.Name) and isinstance(loop.iter, ast.Call)
-                and isinstance(loop.iter.func, ast.Attribute) and loop.iter.func.attr == "find_all"
-                and dotted(loop.iter.func.value) == "node" and [ast.unparse(a) for a in loop.iter.args] == ["nodes.NSRef"]
-                and not loop.iter.keywords):
+        if not (isinstance(loop, ast.For) and isinstance(loop.target, ast.Name) and isinstance(loop.iter, ast.Name)):
             continue
+        it = loop.iter.id
+        binds = sorted(" ".join(ast.unparse(a.value).split()) for a in ast.walk(fn)
+                       if isinstance(a, (ast.Assign, ast.AnnAssign)) and a.value is not None
+                       and ast.unparse(a.targets[0] if isinstance(a, ast.Assign) else a.target) == it)
+        if binds != ["[target]", "target.find_all(nodes.NSRef)"]:
+            return False
+        sel = [st for st in ast.walk(fn) if isinstance(st, ast.If) and " ".join(ast.unparse(st.test).split()) ==
+               "isinstance(target, nodes.NSRef)"]
+        if len(sel) != 1 or "[target]" not in ast.unparse(sel[0].body[0]) or not sel[0].orelse \
+                or "find_all" not in ast.unparse(sel[0].orelse[0]):
+            return False
         t = loop.target.id
         texts = []
         for c in ast.walk(loop):
@@ -333,9 +364,9 @@ def gen():
          "def emitted : List Emitted := ["]
     L.append(",\n".join(f"  ⟨{lstr(f)}, {lstr(t)}, {lstr(tg)}, {lstr(h)}, .{c}⟩" for f, t, tg, h, c in a_rows))
     L.append("]\n")
-    L.append("/-- READ: visit_Assign guards every NSRef target with `if not isinstance(ref, Namespace): raise TemplateRuntimeError` -/")
+    L.append("/-- READ: visit_Assign and visit_AssignBlock both call `_check_nsrefs(node.target, frame)` before writing the target; it emits `if not isinstance(ref, Namespace): raise TemplateRuntimeError` -/")
     L.append(f"def nsrefGuarded : Bool := {lbool(guard)}\n")
-    L.append("/-- READ: that guard is emitted inside `for nsref in node.find_all(nodes.NSRef)` for `nsref.name`, skipping only names already "
+    L.append("/-- READ: that guard is emitted for every NSRef of the target (`[target]` or `target.find_all(nodes.NSRef)`) by `nsref.name`, skipping only names already "
              "guarded: it covers EVERY namespace ref of a (tuple) target -/")
     L.append(f"def nsrefGuardCoversEvery : Bool := {lbool(guard_every)}\n")
     L.append("/-- READ (informational): write/writeline calls whose argument is not a literal (visitor, argument) -/")
